@@ -61,16 +61,55 @@ theorem listing_once_all_formats (c : Coll) (anc : List CName) :
     jsonTasks (serialized c) = (bindings c anc).map (fun b => (b.key, b.aliases)) :=
   ⟨flat_eq_bindings c anc, nested_eq_bindings c anc, json_eq_bindings c anc⟩
 
-/-- …and the bindings are the parser contexts: in a well-formed tree with ONE `auto_dash_names` setting
-    the bindings correspond one-to-one and in order to the `task_names` entries: the listed dotted name
-    is the entry's primary (CLI) name, every listed alias is an alias of the entry, and the entry has no
-    further alias except collection-name shortcuts (proper prefixes of the name).
-    `_partial`: (i) trees mixing `auto_dash_names` settings are excluded - there the listing prints the
-    sub-collection's own spelling (`mixed_dash_listing_counterexample`, known finding N4); (ii) pairwise
-    distinctness of the primary names is not proved here (the harness checks it per tree). -/
-theorem listing_once_partial (c : Coll) (hW : wf c = true) (hU : uniformDash c.autoDash c = true) :
+/-- In a well-formed tree no two `task_names` entries have the same primary name (so the parser never
+    sees a primary name twice).  What `wf` contributes: per collection, task keys pairwise distinct and
+    sub-collection keys pairwise distinct; every key non-empty and left unchanged by its own collection's
+    `transform` (needed so that a parent's re-normalisation of the names coming from a sub-collection is
+    injective - `transform` is last-wins, hence invertible on names normalised for the sub-collection);
+    all of this hereditarily.  Not needed: the alias conditions, the default, dot-freeness. -/
+theorem primary_names_distinct (c : Coll) (hW : wf c = true) : ((taskNames c).map (·.1)).Nodup :=
+  primaries_nodup c hW
+
+/-- LISTING ONCE.  In a well-formed tree with ONE `auto_dash_names` setting every task appears exactly
+    once under its primary name: the names shown by the flat listing are, in order, exactly the primary
+    names of `task_names` (= the names of the parser contexts), these are pairwise distinct, and each
+    occurs exactly once.  By `listings_agree` the same holds for the nested and the JSON format. -/
+theorem listing_once (c : Coll) (hW : wf c = true) (hU : uniformDash c.autoDash c = true) :
+    (flatPairs c []).map (·.1) = (taskNames c).map (·.1) ∧ ((taskNames c).map (·.1)).Nodup ∧
+    ∀ e ∈ taskNames c, ((flatPairs c []).map (·.1)).count e.1 = 1 :=
+  flat_names_once c hW hU
+
+/-- …together with its aliases: position by position the binding behind a listing line and the
+    `task_names` entry have the same dotted name, every listed alias is an alias of the entry, and the
+    entry has no further alias except collection-name shortcuts (proper prefixes of the name).
+    Trees mixing `auto_dash_names` settings are excluded: there the listing prints the sub-collection's own
+    spelling (`mixed_dash_listing_counterexample`, known finding N4). -/
+theorem listing_aliases_match (c : Coll) (hW : wf c = true) (hU : uniformDash c.autoDash c = true) :
     Pairs (Matches []) (bindings c []) (taskNames c) :=
   bindings_match c c.autoDash hW hU []
+
+/-- LISTINGS AGREE.  For every tree the three formats carry, position by position, the same
+    (dotted binding name, aliases) pairs: the flat lines (their declared aliases, i.e. without the
+    collection-name shortcut), the task lines of the nested listing, and - as last components - the task
+    records of the JSON document.  With `listing_once` / `listing_aliases_match` these pairs are, for a
+    well-formed tree with one `auto_dash_names` setting, the primary names and aliases the CLI accepts. -/
+theorem listings_agree (c : Coll) :
+    (flatPairs c []).map flatDeclared = (bindings c []).map Binding.cli ∧
+    ((nestedPairs c []).filter NLine.isTask).map NLine.cli = (bindings c []).map Binding.cli ∧
+    jsonTasks (serialized c) = ((bindings c []).map Binding.cli).map Entry.leaf :=
+  listings_agree_all c
+
+/-- as sets of pairs (uniform, well-formed tree): flat and nested show the same pairs, whose names are
+    exactly the accepted primary names -/
+theorem listings_agree_with_cli (c : Coll) (hW : wf c = true) (hU : uniformDash c.autoDash c = true) :
+    (flatPairs c []).map flatDeclared = ((nestedPairs c []).filter NLine.isTask).map NLine.cli ∧
+    ((flatPairs c []).map flatDeclared).map (·.1) = (taskNames c).map (·.1) := by
+  obtain ⟨h1, h2, _⟩ := listings_agree_all c
+  refine ⟨h1.trans h2.symm, ?_⟩
+  rw [h1, List.map_map]
+  show _ = primaries c
+  rw [← bindings_names_eq_primaries c hW hU]
+  exact List.map_congr_left (fun b _ => rfl)
 
 /-! ## non-vacuity and the behaviour before the repairs -/
 
@@ -102,6 +141,12 @@ example : (taskNames mixed).map (·.1) =
     [[S "top_x"], [S "in_ner", S "u"], [S "in_ner", S "b", S "t"], [S "in_ner", S "b", S "my_task"]] := by decide
 
 example : uniformDash root.autoDash root = true := by decide
+example : (flatPairs root []).map flatDeclared =
+    [([S "top"], [[S "al"]]), ([S "in-ner", S "u"], []),
+     ([S "in-ner", S "b", S "t"], [[S "in-ner", S "b", S "tt"], [S "in-ner", S "b", S "x-t"]]),
+     ([S "in-ner", S "b", S "my-task"], [])] := by decide
+example : jsonTasks (serialized root) =
+    [(S "top", [S "al"]), (S "u", []), (S "t", [S "tt", S "x-t"]), (S "my-task", [])] := by decide
 example : (bindings root []).map Binding.flat =
     [([S "top"], [[S "al"]]),
      ([S "in-ner", S "u"], []),
